@@ -894,7 +894,7 @@ func checkAccounts(r *runner, views map[string]*LedgerView) []Violation {
 	for _, name := range sortedKeys(views) {
 		v := views[name]
 		type ev struct {
-			first gotime.Time
+			first  gotime.Time
 			txOnly gotime.Time // earliest among transactions only
 			byTx   bool
 			byMeta bool
@@ -1004,4 +1004,166 @@ func checkIsolationAtCommit(r *runner, rec CommitRec) []Violation {
 		vs = append(vs, Violation{r.sc.Property, "no-write-crosses-a-ledger-boundary", fmt.Sprintf("commit %d by %s (a request on ledger %s) changed %s", rec.Seq, rec.Task, op.Ledger, wr.Key)})
 	}
 	return vs
+}
+
+// ---------------------------------------------------------------- C35 (write side): feature equivalence
+
+func init() {
+	// Two ledgers of one bucket with independently drawn feature sets receive the same sequential history
+	// (one client each, running concurrently with the other ledger's client). Whatever the features, the
+	// transactions, logs, balances and current metadata must come out identical.
+	register(Profile{Property: "C35", Name: "feature-equivalence", Gen: func(r *RNG, seed uint64, tier string) (*Scenario, *ExploreCfg) {
+		sc := &Scenario{Property: "C35", Profile: "feature-equivalence", Knobs: randomKnobs(r), Checks: []string{"feature-equivalence", "hash-chain", "pcv", "conservation", "replay"}}
+		g := &gen{r: r, sc: sc}
+		draw := func() map[string]string {
+			f := map[string]string{
+				"MOVES_HISTORY": Pick(r, []string{"ON", "OFF"}),
+				"MOVES_HISTORY_POST_COMMIT_EFFECTIVE_VOLUMES": Pick(r, []string{"SYNC", "DISABLED"}),
+				"HASH_LOGS":                    Pick(r, []string{"SYNC", "ASYNC", "DISABLED"}),
+				"ACCOUNT_METADATA_HISTORY":     Pick(r, []string{"SYNC", "DISABLED"}),
+				"TRANSACTION_METADATA_HISTORY": Pick(r, []string{"SYNC", "DISABLED"}),
+			}
+			return f
+		}
+		sc.Setup = []Op{
+			{ID: g.id("s"), Kind: KCreateLedger, Ledger: "fa", Feats: draw()},
+			{ID: g.id("s"), Kind: KCreateLedger, Ledger: "fb", Feats: draw()},
+		}
+		var hist []Op
+		n := 3 + r.Intn(6)
+		txN := uint64(0)
+		for i := 0; i < n; i++ {
+			var op Op
+			switch x := r.Intn(12); {
+			case x < 4:
+				op = Op{Kind: KPostings, Postings: []PostingSpec{{"world", Pick(r, users), g.amount(false), Pick(r, assets)}}, Timestamp: g.timestamp()}
+				if r.Chance(0.4) {
+					op.Postings = append(op.Postings, PostingSpec{op.Postings[0].Destination, Pick(r, users), "1", op.Postings[0].Asset})
+				}
+				if r.Chance(0.3) {
+					op.Reference = "ref-" + fmt.Sprint(r.Intn(3))
+				}
+				txN++
+			case x < 5:
+				op = Op{Kind: KPostings, Postings: []PostingSpec{{"poor:1", "bank", "1000", "USD"}}, Timestamp: g.timestamp()} // refused
+			case x < 7:
+				dst := Pick(r, users)
+				op = Op{Kind: KScript, Timestamp: g.timestamp(), Script: fmt.Sprintf("send [USD %d] (\n  source = @world\n  destination = @%s\n)\nset_account_meta(@%s, \"k%d\", \"v\")\nset_tx_meta(\"t\", \"%d\")\n", 1+r.Intn(50), dst, Pick(r, users), r.Intn(2), i)}
+				txN++
+			case x < 8 && txN > 0:
+				op = Op{Kind: KRevert, TxID: 1 + uint64(r.Intn(int(txN))), Force: true, AtEffectiveDate: true}
+				txN++
+			case x < 9 && txN > 0:
+				op = Op{Kind: KTxMetaSet, TxID: 1 + uint64(r.Intn(int(txN))), Metadata: map[string]string{"mk" + fmt.Sprint(r.Intn(2)): Pick(r, weird)}}
+			case x < 10 && txN > 0:
+				op = Op{Kind: KTxMetaDel, TxID: 1 + uint64(r.Intn(int(txN))), Key: "mk" + fmt.Sprint(r.Intn(2))}
+			case x < 11:
+				op = Op{Kind: KAcctMetaSet, Address: Pick(r, users), Metadata: map[string]string{"ak" + fmt.Sprint(r.Intn(2)): Pick(r, weird)}}
+			default:
+				op = Op{Kind: KAcctMetaDel, Address: Pick(r, users), Key: "ak" + fmt.Sprint(r.Intn(2))}
+			}
+			if op.Kind == "" {
+				op = Op{Kind: KAcctMetaSet, Address: Pick(r, users), Metadata: map[string]string{"ak0": "v"}}
+			}
+			op.Sig = fmt.Sprintf("h%d", i)
+			hist = append(hist, op)
+		}
+		for ci, l := range []string{"fa", "fb"} {
+			var ops []Op
+			for i, op := range hist {
+				cp := op
+				cp.Ledger = l
+				cp.ID = fmt.Sprintf("c%d.%d", ci, i)
+				ops = append(ops, cp)
+			}
+			sc.Clients = append(sc.Clients, ops)
+		}
+		ex := defaultExplore(seed, 0, 0)
+		ex.PreemptP = 0.5
+		return sc, ex
+	}})
+}
+
+// projectLedger renders what C35 says must not depend on the features: transactions, logs, balances and
+// current metadata - without the dates the database clock assigns and without hashes.
+func projectLedger(v *LedgerView) []string {
+	var out []string
+	txp := func(t *ledger.Transaction) string {
+		pcv := ""
+		for _, a := range sortedKeys(t.PostCommitVolumes) {
+			for _, as := range sortedKeys(t.PostCommitVolumes[a]) {
+				v := t.PostCommitVolumes[a][as]
+				pcv += fmt.Sprintf(" %s/%s=(%v,%v)", a, as, v.Input, v.Output)
+			}
+		}
+		return fmt.Sprintf("id=%d postings=%v metadata=%v ref=%q ts=%s reverted=%v pcv=[%s]", *t.ID, t.Postings, sortedMeta(t.Metadata), t.Reference, t.Timestamp.Time.UTC().Format(gotime.RFC3339Nano), t.RevertedAt != nil, pcv)
+	}
+	var ids []uint64
+	for id := range v.Txs {
+		ids = append(ids, id)
+	}
+	sort.Slice(ids, func(i, j int) bool { return ids[i] < ids[j] })
+	for _, id := range ids {
+		out = append(out, "tx "+txp(v.Txs[id]))
+	}
+	for _, row := range v.Logs {
+		p, err := ledger.HydrateLog(row.Type, row.DataJSON)
+		if err != nil {
+			out = append(out, fmt.Sprintf("log %d does not hydrate: %v", row.ID, err))
+			continue
+		}
+		line := fmt.Sprintf("log %d %s ik=%q ", row.ID, row.Type, row.IK)
+		switch pl := p.(type) {
+		case ledger.CreatedTransaction:
+			am := map[string]string{}
+			for a, m := range pl.AccountMetadata {
+				am[a] = fmt.Sprint(sortedMeta(m))
+			}
+			line += txp(&pl.Transaction) + " accountMetadata=" + fmt.Sprint(sortedMeta(am))
+		case ledger.RevertedTransaction:
+			line += fmt.Sprintf("reverts=%d with %s", *pl.RevertedTransaction.ID, txp(&pl.RevertTransaction))
+		case ledger.SavedMetadata:
+			line += fmt.Sprintf("%s %v %v", pl.TargetType, pl.TargetID, sortedMeta(pl.Metadata))
+		case ledger.DeletedMetadata:
+			line += fmt.Sprintf("%s %v key=%q", pl.TargetType, pl.TargetID, pl.Key)
+		}
+		out = append(out, line)
+	}
+	for _, k := range sortedKeys(v.Vols) {
+		acc, asset := volKeyParts(rowKey{Key: k})
+		out = append(out, fmt.Sprintf("volumes %s/%s in=%v out=%v", acc, asset, v.Vols[k].Input, v.Vols[k].Output))
+	}
+	for _, a := range sortedKeys(v.Accts) {
+		out = append(out, fmt.Sprintf("account %s metadata=%v", a, sortedMeta(v.Accts[a].Metadata)))
+	}
+	return out
+}
+
+func sortedMeta(m map[string]string) []string {
+	var out []string
+	for _, k := range sortedKeys(m) {
+		out = append(out, k+"="+m[k])
+	}
+	return out
+}
+
+func checkFeatureEquivalence(r *runner, views map[string]*LedgerView) []Violation {
+	a, b := views["fa"], views["fb"]
+	if a == nil || b == nil {
+		return nil
+	}
+	pa, pb := projectLedger(a), projectLedger(b)
+	for i := 0; i < len(pa) || i < len(pb); i++ {
+		la, lb := "<nothing>", "<nothing>"
+		if i < len(pa) {
+			la = pa[i]
+		}
+		if i < len(pb) {
+			lb = pb[i]
+		}
+		if la != lb {
+			return []Violation{{r.sc.Property, "same-history-same-data-whatever-the-features", fmt.Sprintf("the same history gives, with features %v: %s; with features %v: %s", sortedMeta(a.Feats), la, sortedMeta(b.Feats), lb)}}
+		}
+	}
+	return nil
 }
